@@ -142,6 +142,28 @@ pub fn run() -> i32 {
             Ok((_, errors)) => if errors == 0 { rep.counterexample(&format!("{name}: {files:?}"), what, "accepted"); },
         }
     }
+    // ---- aliases of EVERY kind of type are transparent: the field binds to the alias's final target, whatever its kind ------
+    {
+        let files = vec!["module A::B\nstruct S {}\nenum E { X }\ncustom C\ntypealias AS = S\ntypealias AE = E\ntypealias AC = C\ntypealias AP = int32\ntypealias AQ = Sequence<S>\ntypealias AD = Dictionary<int32, S>\ntypealias AR = Result<string, S>\ntypealias AA = AR\ntypealias AAA = AA\nstruct Holder { s: AS, e: AE, c: AC, p: AP, q: AQ, d: AD, r: AR, a: AA, aa: AAA, n: Sequence<AR>, o: AS? }\n".to_owned()];
+        rep.case(true, || "aliases of every kind".to_owned());
+        match compile(&files) {
+            Err(m) => rep.counterexample("aliases of every kind", "an AST", &m),
+            Ok((state, errors)) => {
+                if errors > 0 { rep.counterexample(&files[0], "accepted: every alias designates a type", "rejected with an error"); }
+                else {
+                    for (f, want) in [("s", "Struct"), ("e", "Enum"), ("c", "CustomType"), ("p", "Primitive"), ("q", "Sequence"), ("d", "Dictionary"), ("r", "ResultType"), ("a", "ResultType"), ("aa", "ResultType"), ("n", "Sequence"), ("o", "Struct")] {
+                        match state.ast.find_element::<Field>(&format!("A::B::Holder::{f}")) {
+                            Err(_) => rep.counterexample(&files[0], &format!("field {f} retrievable"), "not found"),
+                            Ok(fld) => {
+                                let got = match fld.data_type().concrete_type() { Types::Struct(_) => "Struct", Types::Enum(_) => "Enum", Types::CustomType(_) => "CustomType", Types::Primitive(_) => "Primitive", Types::Sequence(_) => "Sequence", Types::Dictionary(_) => "Dictionary", Types::ResultType(_) => "ResultType" };
+                                if got != want { rep.counterexample(&files[0], &format!("Holder::{f} bound to a {want} (the alias's final target)"), got); }
+                            }
+                        }
+                    }
+                }
+            }
+        }
+    }
     // ---- retrieval by fully scoped name ---------------------------------------------------------------------
     {
         let files = vec!["module A::B\nstruct S { f: bool, g: S2 }\nstruct S2 {}\nenum E { X, Y(z: bool) }\ninterface I { op(p: bool) -> (r: bool, s: bool) }\ncustom C\ntypealias Al = Sequence<S>\n".to_owned()];
